@@ -24,6 +24,7 @@ type checkerSet struct {
 	c17  *certModel
 	// C08: what auditors signed and providers declared, kept from the successful transactions alone
 	// (owner|auditor -> key -> value; owner -> declared attributes)
+	c17Touched [][2]string // (owner, serial) pairs named by certificate transactions of the block in progress
 	att      map[string]map[string]string
 	declared map[string]types.Attributes
 	// C07: per-transaction result digests and per-block app hashes of replica 0
@@ -99,6 +100,26 @@ func (cs *checkerSet) blockEnd(w *World, hashes [][]byte) *core.Violation {
 		// restart a fresh process from it instead of from genesis
 		if cs.dbDump == nil && cs.r.Bool(6, "c07.dumpdisk") {
 			cs.dumpDisk(w)
+		}
+	}
+	if cs.prop == "C17" {
+		// after the commit: what the application itself answers (its own keeper instance, with whatever
+		// it keeps in memory) for the pairs this block's transactions named - accepted or rejected - and
+		// for one drawn listing
+		touched := cs.c17Touched
+		cs.c17Touched = nil
+		if len(touched) > 3 {
+			touched = touched[len(touched)-3:]
+		}
+		for _, t := range touched {
+			if v := cs.c17QueryVia(w, true, t[0], t[1]); v != nil {
+				return v
+			}
+		}
+		if len(touched) > 0 || cs.r.Bool(10, "c17.abci-listing") {
+			if v := cs.c17QueryVia(w, true, "", ""); v != nil {
+				return v
+			}
 		}
 	}
 	for i := 1; i < len(hashes); i++ {
